@@ -1,34 +1,614 @@
 package main
 
 import (
+	"crypto/sha256"
+	"encoding/hex"
+	"encoding/json"
+	"flag"
 	"fmt"
+	"go/types"
 	"os"
+	"path/filepath"
+	"regexp"
+	"runtime"
+	"sort"
+	"strconv"
+	"strings"
+	"time"
 
-	"golang.org/x/tools/go/packages"
 	"golang.org/x/tools/go/ssa"
-	"golang.org/x/tools/go/ssa/ssautil"
 )
 
+const verifDir = "/verif"
+
+type Plan struct {
+	Property   string   `json:"property"`
+	Packages   []string `json:"packages"`
+	Functions  []string `json:"functions"`
+	Lemmas     []string `json:"lemmas"`
+	Tables     []string `json:"tables"`
+	Scans      []string `json:"scans"`
+	NotDecided []string `json:"not_decided"`
+	Bounded    []string `json:"bounded"`
+	Notes      []string `json:"notes"`
+}
+
+type Finding struct {
+	Status     string `json:"status"` // fixed | finding
+	Property   string `json:"property"`
+	Obligation string `json:"obligation"`
+	Witness    string `json:"witness"`
+	Commit     string `json:"commit"`
+	What       string `json:"what"`
+}
+
 func main() {
-	cfg := &packages.Config{Mode: packages.LoadAllSyntax, Dir: "/repo", BuildFlags: []string{"-tags=verif"}}
-	pkgs, err := packages.Load(cfg, os.Args[1])
-	if err != nil {
-		panic(err)
+	if len(os.Args) < 2 {
+		usage()
 	}
-	prog, spkgs := ssautil.AllPackages(pkgs, ssa.NaiveForm|ssa.GlobalDebug)
-	prog.Build()
-	for _, p := range spkgs {
-		if p == nil {
+	switch os.Args[1] {
+	case "check":
+		os.Exit(cmdCheck(os.Args[2:]))
+	case "dump":
+		os.Exit(cmdDump(os.Args[2:]))
+	default:
+		usage()
+	}
+}
+
+func usage() {
+	fmt.Fprintln(os.Stderr, "usage: govc check <Cxx> [--tier quick|thorough] [--write-ledger] [--replay file] [--only regexp] [--keep]\n       govc dump <pkgpattern> [func]")
+	os.Exit(2)
+}
+
+func cmdDump(args []string) int {
+	x, err := loadProgram([]string{args[0]})
+	if err != nil {
+		fmt.Fprintln(os.Stderr, err)
+		return 2
+	}
+	var all []*ssa.Function
+	seen := map[*ssa.Function]bool{}
+	var walk func(f *ssa.Function)
+	walk = func(f *ssa.Function) {
+		if f == nil || seen[f] {
+			return
+		}
+		seen[f] = true
+		all = append(all, f)
+		for _, a := range f.AnonFuncs {
+			walk(a)
+		}
+	}
+	for _, p := range x.prog.AllPackages() {
+		if !strings.HasPrefix(p.Pkg.Path(), modulePath) {
 			continue
 		}
 		for _, m := range p.Members {
-			if f, ok := m.(*ssa.Function); ok && (len(os.Args) < 3 || f.Name() == os.Args[2]) {
-				f.WriteTo(os.Stdout)
-				for _, af := range f.AnonFuncs {
-					af.WriteTo(os.Stdout)
+			switch v := m.(type) {
+			case *ssa.Function:
+				walk(v)
+			case *ssa.Type:
+				for _, t := range []types.Type{v.Type(), types.NewPointer(v.Type())} {
+					ms := x.prog.MethodSets.MethodSet(t)
+					for i := 0; i < ms.Len(); i++ {
+						walk(x.prog.MethodValue(ms.At(i)))
+					}
 				}
 			}
 		}
 	}
-	fmt.Println("ok")
+	sort.Slice(all, func(i, j int) bool { return all[i].String() < all[j].String() })
+	for _, g := range all {
+		if len(g.Blocks) == 0 {
+			continue
+		}
+		if len(args) > 1 {
+			if !strings.Contains(g.String(), args[1]) {
+				continue
+			}
+			g.WriteTo(os.Stdout)
+			li := x.loops(g)
+			for i, h := range li.headers {
+				fmt.Printf("# loop %d: header block %d (%s)\n", i+1, h.Index, h.Comment)
+			}
+		} else {
+			fmt.Println(g.String())
+		}
+	}
+	return 0
+}
+
+func cmdCheck(args []string) int {
+	fs := flag.NewFlagSet("check", flag.ExitOnError)
+	tier := fs.String("tier", "", "quick|thorough")
+	writeLedger := fs.Bool("write-ledger", false, "write the ledger from this run")
+	replay := fs.String("replay", "", "replay file")
+	only := fs.String("only", "", "only functions matching")
+	keep := fs.Bool("keep", false, "keep SMT files of failing obligations in .work")
+	verbose := fs.Bool("v", false, "verbose")
+	if len(args) < 1 {
+		usage()
+	}
+	prop := args[0]
+	fs.Parse(args[1:])
+	if *tier == "" {
+		*tier = os.Getenv("VERIF_TIER")
+	}
+	if *tier == "" {
+		*tier = "quick"
+	}
+	seed := 0
+	if s := os.Getenv("VERIF_SEED"); s != "" {
+		seed, _ = strconv.Atoi(s)
+	}
+	if *replay != "" {
+		return cmdReplay(prop, *replay)
+	}
+	t0 := time.Now()
+	plan, err := readPlan(prop)
+	if err != nil {
+		fmt.Println("ENGINE-ERROR", err)
+		return 2
+	}
+	x, err := loadProgram(plan.Packages)
+	if err != nil {
+		fmt.Println("ENGINE-ERROR load:", err)
+		return 2
+	}
+	if err := x.loadSpecs(filepath.Join(verifDir, "external")); err != nil {
+		fmt.Println("ENGINE-ERROR specs:", err)
+		return 2
+	}
+	loadSecs := time.Since(t0).Seconds()
+	var reports []FuncReport
+	var onlyRe *regexp.Regexp
+	if *only != "" {
+		onlyRe = regexp.MustCompile(*only)
+	}
+	fnHashes := map[string]string{}
+	for _, name := range plan.Functions {
+		if onlyRe != nil && !onlyRe.MatchString(name) {
+			continue
+		}
+		f := x.findFunction(name)
+		if f == nil {
+			reports = append(reports, FuncReport{Name: name, Err: "function not found in the working tree"})
+			continue
+		}
+		rep := x.verifyFunction(f)
+		reports = append(reports, rep)
+		var sb strings.Builder
+		f.WriteTo(&sb)
+		h := sha256.Sum256([]byte(sb.String()))
+		fnHashes[name] = hex.EncodeToString(h[:8])
+	}
+	x.extraChecks(plan, onlyRe)
+	genSecs := time.Since(t0).Seconds() - loadSecs
+	opts := dischargeOpts{timeoutMs: 4000, thorough: *tier == "thorough", seed: seed, jobs: runtime.NumCPU()}
+	if opts.thorough {
+		opts.timeoutMs = 30000
+		opts.jobs = runtime.NumCPU() / 2
+	}
+	obls, covers, stats := discharge(x.checks, opts)
+	solveSecs := time.Since(t0).Seconds() - loadSecs - genSecs
+
+	// ---- decide
+	exit := 0
+	var lines []string
+	undecided := false
+	for _, r := range reports {
+		if r.Err != "" {
+			lines = append(lines, fmt.Sprintf("UNDECIDED property=%s function=%s: %s", prop, r.Name, r.Err))
+			undecided = true
+		}
+	}
+	// vacuity
+	for _, r := range reports {
+		if r.Err != "" {
+			continue
+		}
+		req := covers[r.Name+"/cover/requires"]
+		for _, in := range req {
+			if in.Result.Status == "unsat" {
+				lines = append(lines, fmt.Sprintf("ENGINE-ERROR property=%s vacuous precondition in %s", prop, r.Name))
+				undecided = true
+			}
+		}
+		rets := covers[r.Name+"/cover/return"]
+		reach := false
+		for _, in := range rets {
+			if in.Result.Status != "unsat" {
+				reach = true
+			}
+		}
+		if !reach {
+			lines = append(lines, fmt.Sprintf("ENGINE-ERROR property=%s no reachable return path in %s (vacuous)", prop, r.Name))
+			undecided = true
+		}
+	}
+	// contract applications must not make feasible paths infeasible
+	for name, afters := range covers {
+		i := strings.Index(name, "/cover/after:")
+		if i < 0 {
+			continue
+		}
+		anyAfter := false
+		for _, in := range afters {
+			if in.Result.Status != "unsat" {
+				anyAfter = true
+			}
+		}
+		if anyAfter {
+			continue
+		}
+		befores := covers[name[:i]+"/cover/before:"+name[i+len("/cover/after:"):]]
+		for _, in := range befores {
+			if in.Result.Status == "sat" {
+				lines = append(lines, fmt.Sprintf("ENGINE-ERROR property=%s contract applied at %s makes every path infeasible (vacuous): %s", prop, in.Check.Where, name))
+				undecided = true
+				break
+			}
+		}
+	}
+	ledger := readLedger(prop)
+	findings := readFindings()
+	generated := map[string]*Obligation{}
+	for _, ob := range obls {
+		generated[ob.Name] = ob
+	}
+	discharged := 0
+	violations := 0
+	var failedNames []string
+	os.MkdirAll(filepath.Join(verifDir, "replays", prop), 0o755)
+	for _, ob := range obls {
+		if ob.Status == "discharged" {
+			discharged++
+			continue
+		}
+		failedNames = append(failedNames, ob.Name)
+		if f := matchFinding(findings, prop, ob); f != nil {
+			lines = append(lines, fmt.Sprintf("KNOWN-FINDING: property=%s %s %s", prop, ob.Name, f.Witness))
+			continue
+		}
+		if ob.Fail != nil && ob.Fail.Result.Status == "disagree" {
+			lines = append(lines, fmt.Sprintf("ENGINE-ERROR property=%s solvers disagree on %s (%s)", prop, ob.Name, ob.Fail.Result.Solver))
+			undecided = true
+			continue
+		}
+		rp, reproduced := writeReplay(x, prop, ob, ledger, *keep)
+		violations++
+		suffix := ""
+		if !reproduced {
+			suffix = " no-failing-input-found"
+		}
+		lines = append(lines, fmt.Sprintf("VIOLATION property=%s replay=%s obligation=%s%s", prop, rp, ob.Name, suffix))
+		exit = 1
+	}
+	// ledger obligations that must exist
+	for _, name := range ledger {
+		if _, ok := generated[name]; ok {
+			continue
+		}
+		if optionalKind(name) {
+			continue
+		}
+		fnOK := true
+		for _, r := range reports {
+			if strings.HasPrefix(name, r.Name+"/") && r.Err != "" {
+				fnOK = false
+			}
+		}
+		if fnOK && onlyRe == nil {
+			lines = append(lines, fmt.Sprintf("UNDECIDED property=%s ledger obligation %s was not generated", prop, name))
+			undecided = true
+		}
+	}
+	if len(obls) == 0 {
+		lines = append(lines, fmt.Sprintf("ENGINE-ERROR property=%s no obligations generated", prop))
+		undecided = true
+	}
+	if undecided && exit == 0 {
+		exit = 2
+	}
+	for _, l := range lines {
+		fmt.Println(l)
+	}
+	wall := time.Since(t0).Seconds()
+	if *writeLedger && exit == 0 {
+		var names []string
+		for _, ob := range obls {
+			if ob.Status == "discharged" {
+				names = append(names, ob.Name)
+			}
+		}
+		writeLedgerFile(prop, names)
+	}
+	if onlyRe == nil {
+		writeEvidence(x, plan, prop, *tier, seed, obls, covers, reports, stats, discharged, violations, wall, loadSecs, genSecs, solveSecs, fnHashes, failedNames, lines)
+	}
+	if *verbose {
+		type slow struct {
+			name string
+			secs float64
+			st   string
+		}
+		var sl []slow
+		for _, ob := range obls {
+			for _, in := range ob.Instances {
+				t := 0.0
+				for _, tr := range in.Tried {
+					t += tr.Secs
+				}
+				sl = append(sl, slow{ob.Name, t, in.Result.Status})
+			}
+		}
+		for n, l := range covers {
+			for _, in := range l {
+				sl = append(sl, slow{n, in.Result.Secs, in.Result.Status})
+			}
+		}
+		sort.Slice(sl, func(i, j int) bool { return sl[i].secs > sl[j].secs })
+		for i := 0; i < len(sl) && i < 12; i++ {
+			fmt.Printf("  slow %.2fs %s %s\n", sl[i].secs, sl[i].st, sl[i].name)
+		}
+	}
+	if *verbose || exit != 0 {
+		for _, r := range reports {
+			fmt.Printf("  func %-60s paths=%d checks=%d %s\n", r.Name, r.Paths, r.Checks, r.Err)
+		}
+		for _, ob := range obls {
+			if ob.Status != "discharged" || *verbose {
+				fmt.Printf("  %-10s %-80s inst=%d %.2fs %s\n", ob.Status, ob.Name, len(ob.Instances), ob.Secs, ob.Where)
+			}
+		}
+	}
+	fmt.Printf("property %s tier=%s: %d obligations, %d discharged, %d violations, %d functions; load %.1fs gen %.1fs solve %.1fs total %.1fs\n",
+		prop, *tier, len(obls), discharged, violations, len(reports), loadSecs, genSecs, solveSecs, wall)
+	return exit
+}
+
+// deadSiteOK: return sites a contract declares unreachable (flag deadreturn=file:line).
+func (x *Exec) deadSiteOK(fn, site string) bool {
+	for _, c := range x.contracts {
+		for _, a := range c.FlagArgs["deadreturn"] {
+			if a == site {
+				return true
+			}
+		}
+	}
+	return false
+}
+
+func optionalKind(name string) bool {
+	i := strings.Index(name, "/")
+	if i < 0 {
+		return false
+	}
+	k := name[i+1:]
+	return strings.HasPrefix(k, "nopanic/") || strings.HasPrefix(k, "call:") || strings.HasPrefix(k, "arith/") || strings.HasPrefix(k, "conv/") || k == "frame" || strings.HasPrefix(k, "lock/")
+}
+
+func readPlan(prop string) (*Plan, error) {
+	data, err := os.ReadFile(filepath.Join(verifDir, "props", prop+".json"))
+	if err != nil {
+		return nil, err
+	}
+	var p Plan
+	if err := json.Unmarshal(data, &p); err != nil {
+		return nil, err
+	}
+	return &p, nil
+}
+
+func readLedger(prop string) []string {
+	data, err := os.ReadFile(filepath.Join(verifDir, "ledger", prop+".json"))
+	if err != nil {
+		return nil
+	}
+	var l struct {
+		Obligations []string `json:"obligations"`
+	}
+	json.Unmarshal(data, &l)
+	return l.Obligations
+}
+
+func writeLedgerFile(prop string, names []string) {
+	sort.Strings(names)
+	os.MkdirAll(filepath.Join(verifDir, "ledger"), 0o755)
+	data, _ := json.MarshalIndent(map[string]interface{}{"property": prop, "obligations": names}, "", " ")
+	os.WriteFile(filepath.Join(verifDir, "ledger", prop+".json"), append(data, '\n'), 0o644)
+}
+
+func readFindings() []Finding {
+	data, err := os.ReadFile(filepath.Join(verifDir, "known_findings.jsonl"))
+	if err != nil {
+		return nil
+	}
+	var out []Finding
+	for _, l := range strings.Split(string(data), "\n") {
+		l = strings.TrimSpace(l)
+		if l == "" {
+			continue
+		}
+		var f Finding
+		if json.Unmarshal([]byte(l), &f) == nil {
+			out = append(out, f)
+		}
+	}
+	return out
+}
+
+func matchFinding(fs []Finding, prop string, ob *Obligation) *Finding {
+	for i := range fs {
+		f := &fs[i]
+		if f.Status == "finding" && f.Property == prop && f.Obligation == ob.Name {
+			return f
+		}
+	}
+	return nil
+}
+
+func sanitize(s string) string {
+	re := regexp.MustCompile(`[^A-Za-z0-9_.#-]+`)
+	return re.ReplaceAllString(s, "_")
+}
+
+func inLedger(l []string, n string) bool {
+	for _, s := range l {
+		if s == n {
+			return true
+		}
+	}
+	return false
+}
+
+func writeReplay(x *Exec, prop string, ob *Obligation, ledger []string, keep bool) (string, bool) {
+	path := filepath.Join(verifDir, "replays", prop, sanitize(ob.Name)+".json")
+	in := ob.Fail
+	rec := map[string]interface{}{
+		"property":   prop,
+		"obligation": ob.Name,
+		"function":   in.Check.Fn,
+		"where":      in.Check.Where,
+		"detail":     in.Check.Detail,
+		"status":     in.Result.Status,
+		"solver":     in.Result.Solver,
+		"in_ledger":  inLedger(ledger, ob.Name),
+	}
+	if !inLedger(ledger, ob.Name) {
+		rec["note"] = "new-obligation"
+	}
+	script := in.Check.Script(5000, false)
+	h := sha256.Sum256([]byte(script))
+	rec["smt_sha256"] = hex.EncodeToString(h[:])
+	rec["solver_output"] = summarizeModel(in.Result.Output)
+	var tried []string
+	for _, t := range in.Tried {
+		tried = append(tried, fmt.Sprintf("%s: %s (%.2fs)", t.Solver, t.Status, t.Secs))
+	}
+	rec["solvers_tried"] = tried
+	os.MkdirAll(filepath.Join(verifDir, ".work"), 0o755)
+	smtPath := filepath.Join(verifDir, ".work", sanitize(prop+"_"+ob.Name)+".smt2")
+	os.WriteFile(smtPath, []byte(script), 0o644)
+	rec["smt_file"] = smtPath
+	reproduced := false
+	if in.Result.Status == "sat" {
+		model := parseModel(in.Result.Output)
+		rec["model"] = modelSummary(model)
+		ok, out, test := runAdapter(x, prop, ob, in, model)
+		rec["replay_output"] = out
+		rec["replay_test"] = test
+		reproduced = ok
+	}
+	rec["reproduced_on_real_code"] = reproduced
+	if !reproduced {
+		rec["verdict"] = "no-failing-input-found"
+	} else {
+		rec["verdict"] = "failing input replayed on the real code"
+	}
+	data, _ := json.MarshalIndent(rec, "", " ")
+	os.WriteFile(path, append(data, '\n'), 0o644)
+	return path, reproduced
+}
+
+func writeEvidence(x *Exec, plan *Plan, prop, tier string, seed int, obls []*Obligation, covers map[string][]*Instance, reports []FuncReport, stats map[string]float64, discharged, violations int, wall, loadSecs, genSecs, solveSecs float64, fnHashes map[string]string, failed []string, lines []string) {
+	byKind := map[string]int{}
+	byBackend := map[string]int{}
+	var slowest *Obligation
+	instances := 0
+	for _, ob := range obls {
+		k := ob.Name[strings.Index(ob.Name, "/")+1:]
+		k = regexp.MustCompile(`#\d+`).ReplaceAllString(k, "")
+		k = regexp.MustCompile(`call:[^/]+`).ReplaceAllString(k, "call")
+		byKind[k]++
+		for b, n := range ob.Backends {
+			byBackend[b] += n
+		}
+		instances += len(ob.Instances)
+		if slowest == nil || ob.Secs > slowest.Secs {
+			slowest = ob
+		}
+	}
+	var samples []interface{}
+	for i, ob := range obls {
+		if i%max(1, len(obls)/6) == 0 && len(samples) < 8 {
+			s := map[string]interface{}{"obligation": ob.Name, "status": ob.Status, "instances": len(ob.Instances), "where": ob.Where, "goal": ob.Detail}
+			if len(ob.Instances) > 0 {
+				sc := ob.Instances[0].Check.Script(5000, false)
+				h := sha256.Sum256([]byte(sc))
+				s["smt_sha256"] = hex.EncodeToString(h[:])
+				if len(samples) == 0 {
+					if len(sc) > 6000 {
+						sc = sc[:6000] + "\n;...[truncated]"
+					}
+					s["vc"] = sc
+				}
+			}
+			samples = append(samples, s)
+		}
+	}
+	var funcs []map[string]interface{}
+	for _, r := range reports {
+		funcs = append(funcs, map[string]interface{}{"name": r.Name, "paths": r.Paths, "checks": r.Checks, "ssa_hash": fnHashes[r.Name], "error": r.Err})
+	}
+	coverOK, coverN := 0, 0
+	for _, l := range covers {
+		for _, in := range l {
+			coverN++
+			if in.Result.Status == "sat" {
+				coverOK++
+			}
+		}
+	}
+	var assumptions []string
+	for n := range x.notes {
+		assumptions = append(assumptions, n)
+	}
+	for n := range x.used {
+		assumptions = append(assumptions, "assumed external contract: "+n)
+	}
+	assumptions = append(assumptions,
+		"go/ssa (x/tools v0.29.0) implements the Go specification; the VC generator (/verif/engine) is correct",
+		"slice/string lengths are at most 2^47",
+		"partial correctness only: termination is not proved",
+		"single-threaded semantics: goroutine interleavings are not modelled",
+		"logging calls (zerolog, log, otel) have no effect on verified state")
+	sort.Strings(assumptions)
+	slow := map[string]interface{}{}
+	if slowest != nil {
+		slow = map[string]interface{}{"obligation": slowest.Name, "secs": slowest.Secs}
+	}
+	cov := map[string]interface{}{
+		"obligations":              len(obls),
+		"discharged":               discharged,
+		"checker_cmd":              fmt.Sprintf("./check %s --tier %s", prop, tier),
+		"trusted_base":             []string{"go/ssa v0.29.0", "govc VC generator (/verif/engine)", "z3 5.1.0 / z3 4.8.12 / cvc5 1.0.3", "external contracts in /verif/external/*.spec (assumed, listed under assumptions)"},
+		"obligation_instances":     instances,
+		"functions_under_contract": funcs,
+		"by_kind":                  byKind,
+		"by_backend":               byBackend,
+		"solver_seconds":           stats,
+		"slowest":                  slow,
+		"samples":                  samples,
+		"not_decided":              plan.NotDecided,
+		"bounded_standins":         plan.Bounded,
+		"failed_obligations":       failed,
+		"vacuity":                  map[string]int{"cover_checks": coverN, "cover_sat": coverOK},
+		"timing":                   map[string]float64{"load_s": loadSecs, "vcgen_s": genSecs, "solve_s": solveSecs},
+		"report_lines":             lines,
+	}
+	ev := map[string]interface{}{
+		"property_id": prop,
+		"tier":        tier,
+		"seed":        seed,
+		"level":       "proof",
+		"coverage":    cov,
+		"assumptions": assumptions,
+		"wall_s":      wall,
+		"violations":  violations,
+	}
+	os.MkdirAll(filepath.Join(verifDir, "evidence"), 0o755)
+	data, _ := json.MarshalIndent(ev, "", " ")
+	os.WriteFile(filepath.Join(verifDir, "evidence", prop+".json"), append(data, '\n'), 0o644)
 }
